@@ -295,7 +295,9 @@ def run(ctx):
             def mat_locals(e, g_=g_):
                 return {x[1] for x in walk(e) if x.k in ("phi", "local", "arg") and g_.local_ty(x[1]).lstrip("&") == "grep_matcher::Match"} | \
                     {id(x) for x in walk(e) if is_call(x, "core::ops::index::Index::index") and False}
-            ok = any(is_call(x, "core::ops::index::Index::index") for x in walk(em)) and is_call(strip(es), "grep_matcher::Match::start") \
+            # m is the slice itself, `&bytes[mat]`: whether it is text or base64 is decided from exactly these bytes, later, by
+            # Data::from_bytes — not something precomputed for a larger range
+            ok = is_call(strip(em), "core::ops::index::Index::index") and is_call(strip(es), "grep_matcher::Match::start") \
                 and is_call(strip(ee), "grep_matcher::Match::end")
             same = mat_locals(es) == mat_locals(ee) and mat_locals(es) <= mat_locals(em) | mat_locals(es)
             if ok and same:
